@@ -173,6 +173,7 @@ pub struct MWorld {
     /// Per archetype: live handles in creation order.
     pub order: Vec<Vec<Bits>>,
     pub removals: Vec<u64>,
+    pub creations: Vec<u64>,
     pub last_cap: Vec<usize>,
     pub init_cap: Vec<usize>,
     pub ev_created: Vec<Vec<Bits>>,
@@ -189,6 +190,7 @@ impl MWorld {
         MWorld {
             order: vec![Vec::new(); NARCH],
             removals: vec![0; NARCH],
+            creations: vec![0; NARCH],
             last_cap: vec![0; NARCH],
             init_cap: vec![0; NARCH],
             ev_created: vec![Vec::new(); NARCH],
@@ -680,13 +682,14 @@ impl Sys {
             Vec::new()
         };
         let pre_removals: Vec<Vec<u64>> = self.models.iter().map(|m| m.removals.clone()).collect();
+        let pre_creations: Vec<Vec<u64>> = self.models.iter().map(|m| m.creations.clone()).collect();
 
         let touched = self.apply_inner(op)?;
 
         self.check_registry("after operation")?;
 
         if last && !pre_direct.is_empty() {
-            self.check_direct_transition(&pre_direct, &pre_removals)?;
+            self.check_direct_transition(&pre_direct, &pre_removals, &pre_creations)?;
         }
         if last && !pre_dumps.is_empty() {
             for (w, d) in pre_dumps.iter().enumerate() {
@@ -789,6 +792,7 @@ impl Sys {
             ensure!(len1 == len0 + 1 && !empty1, "C12", "len-after-create", "len went from {} to {} on create", len0, len1);
             m.live.insert(bits, MEnt { arch: a as u8, uid, vals, any });
             m.order[a].push(bits);
+            m.creations[a] += 1;
             m.ev_created[a].push(bits);
             if let Some(d0) = d0 {
                 let pos = (bits.0 >> 8) as usize;
@@ -1086,13 +1090,16 @@ impl Sys {
         Ok(out)
     }
 
-    fn check_direct_transition(&mut self, pre: &[(usize, u8, u32, EntityDirectAny)], pre_removals: &[Vec<u64>]) -> R {
+    fn check_direct_transition(&mut self, pre: &[(usize, u8, u32, EntityDirectAny)], pre_removals: &[Vec<u64>], pre_creations: &[Vec<u64>]) -> R {
         use crate::look::*;
         for (w, a, uid, d) in pre {
             if !self.world_alive(*w) {
                 continue;
             }
             let removed = self.models[*w].removals[*a as usize] != pre_removals[*w][*a as usize];
+            // A creation is a structural change too: the property lets the handle die on it (it must still never
+            // designate another entity), it only REQUIRES death after a removal and survival when nothing changed.
+            let grew = self.models[*w].creations[*a as usize] != pre_creations[*w].get(*a as usize).cloned().unwrap_or(0);
             let world = self.worlds[*w].as_mut().unwrap();
             self.c.direct_probes += 1;
             let mut res: Vec<LookRes> = Vec::new();
@@ -1118,7 +1125,7 @@ impl Sys {
                         ensure!(*u == Some(*uid), "C09", "direct-designates-other", "direct handle {:?} issued for uid {} reaches uid {:?} through {}", d, uid, u, r.path);
                     }
                 } else {
-                    ensure!(removed, "C09", format!("direct-died-without-removal:{}", r.class), "direct handle {:?} (uid {}) is rejected by {} although nothing was removed from its archetype since it was issued", d, uid, r.path);
+                    ensure!(removed || grew, "C09", format!("direct-died-without-removal:{}", r.class), "direct handle {:?} (uid {}) is rejected by {} although its archetype underwent no structural change since it was issued", d, uid, r.path);
                 }
             }
             if removed {
